@@ -76,7 +76,6 @@ func (m *Monitor) onDeliver(msg *gpbft.GMessage, fromByz bool) {
 func (m *Monitor) votes(instance, round uint64, phase gpbft.Phase) (fixed []*delivered, ambiguous [][]*delivered) {
 	n := m.n
 	base := n.Bases[instance]
-	ic := n.W.Cfg.Inst(instance)
 	type senderVotes struct {
 		uniq    []*delivered
 		keys    map[string]bool
@@ -98,7 +97,7 @@ func (m *Monitor) votes(instance, round uint64, phase gpbft.Phase) (fixed []*del
 			bySender[d.Msg.Sender] = sv
 			order = append(order, d.Msg.Sender)
 		}
-		if !v.SupplementalData.Eq(&ic.Supp) || (!v.Value.IsZero() && (base == nil || !vref.TipSetEq(v.Value.TipSets[0], base))) {
+		if own := n.SuppOf(instance); !v.SupplementalData.Eq(&own) || (!v.Value.IsZero() && (base == nil || !vref.TipSetEq(v.Value.TipSets[0], base))) {
 			sv.foreign = true
 			continue
 		}
@@ -188,7 +187,7 @@ func (m *Monitor) onBroadcast(s *Sent) {
 	if msg.Sender != n.ID {
 		m.fail("C07/b/wrong-sender", "emitted a message with sender %d", msg.Sender)
 	}
-	if !msg.Vote.SupplementalData.Eq(&ic.Supp) {
+	if own := n.SuppOf(inst); !msg.Vote.SupplementalData.Eq(&own) {
 		m.fail("C07/b/wrong-supplement", "emitted %s with supplemental data other than the instance's", DescribeMsg(msg))
 	}
 	input := n.Inputs[inst]
